@@ -8,7 +8,9 @@ import (
 	"crypto/ed25519"
 	"encoding/json"
 
+	"github.com/lidofinance/dc4bc/client/api/dto"
 	"github.com/lidofinance/dc4bc/client/types"
+	"github.com/lidofinance/dc4bc/fsm/fsm"
 	"github.com/lidofinance/dc4bc/fsm/state_machines"
 	"github.com/lidofinance/dc4bc/internal/vf"
 	"github.com/lidofinance/dc4bc/storage"
@@ -98,7 +100,8 @@ func VF_C13_Crash() {
 		}
 		if crashed || restart {
 			// the process is gone: start again on the same state store (fresh services, same durable content)
-			e2, err := vfStartNode(e.base, path, 0, board)
+			e2, err := vfRestartNode(path, 1, 0, board)
+			defer vfCleanup(path + "#r1")
 			if err != nil {
 				vf.Unreachable("restart")
 				return vfPublic{}, 0, false
@@ -129,6 +132,91 @@ func VF_C13_Crash() {
 	vf.Assert("crash-restart-equal:round@"+at, vf.And(got.HasRnd == ref.HasRnd, vf.Eq(got.Round, ref.Round)))
 	vf.Assert("ops-survive-restart@"+at, vf.Eq(got.Ops, ref.Ops))
 	vf.Assert("crash-restart-equal:signatures@"+at, vf.BytesEq(got.Sigs, ref.Sigs))
+	vf.Record("crash", k, effects)
+	vf.Assert("witness", false)
+}
+
+// VF_C13_Api: the process dies while (or right after) serving an API request that answers a pending operation. After the
+// restart: an operation that was pending and not answered is still offered; an operation the node reports as retired has
+// its answer on the board (never "retired but nothing sent"); and once the request has returned successfully its effect
+// survives ANY later stop, also one that happens before the next board message is handled (crash-after = 0).
+func VF_C13_Api() {
+	vf.Injective("md5")
+	vf.Injective("hex")
+	vf.Injective("b64")
+	other := types.NewOperation("round", []byte("another-request"), "state_other")
+	answered := types.NewOperation("round", vf.Bytes("pending.payload", 1), fsm.State(vf.Str("pending.type")))
+	nmsgs := 1 + vf.Choose("result.nmsgs", 2)
+	run := func(tag string, crashAfter int) (pending map[string]bool, sent int, crashed bool, effects int, log []string) {
+		path := vfStatePath(tag)
+		vfCleanup(path)
+		defer vfCleanup(path)
+		defer vfCleanup(path + "#r1")
+		board := &vfBoard{}
+		e, err := vfOpenNode(path, 0, board)
+		if err != nil {
+			vf.Unreachable("open-node")
+			return nil, 0, false, 0, nil
+		}
+		if e.ops.PutOperation(other) != nil || e.ops.PutOperation(answered) != nil {
+			vf.Stop()
+		}
+		board.ctl = e.ctl
+		base := e.ctl.n
+		if crashAfter > 0 {
+			e.ctl.limit = base + crashAfter
+		}
+		sub := &dto.OperationDTO{ID: answered.ID, Type: string(answered.Type), Payload: append([]byte{}, answered.Payload...),
+			ResultMsgs: vfResultMsgs("result.msg", nmsgs), CreatedAt: answered.CreatedAt, DkgID: "round",
+			Event: fsm.Event("event_result")}
+		func() {
+			defer func() {
+				if r := recover(); r != nil {
+					if _, ok := r.(vfCrash); ok {
+						crashed = true
+						return
+					}
+					panic(r)
+				}
+			}()
+			if err := e.node.ProcessOperation(sub); err != nil {
+				vf.Unreachable("genuine-answer-rejected")
+			}
+		}()
+		effects = e.ctl.n - base
+		log = append([]string{}, e.ctl.log[base:]...)
+		// the process stops here (killed mid-request, or stopped any time after the request returned)
+		e2, err := vfRestartNode(path, 1, 0, board)
+		if err != nil {
+			vf.Unreachable("restart")
+			return nil, 0, false, 0, nil
+		}
+		ops, _ := e2.ops.GetOperations()
+		pending = map[string]bool{}
+		for id := range ops {
+			pending[id] = true
+		}
+		return pending, len(board.sent), crashed, effects, log
+	}
+	_, _, _, effects, refLog := run("ref", 0)
+	k := vf.Choose("crash-after", effects+1) // 0 = the request returned; the process stops before anything else happens
+	pending, sent, crashed, _, _ := run("crash", k)
+	if k > 0 && !crashed {
+		vf.Unreachable("crash-point-not-reached")
+		return
+	}
+	at := "returned"
+	if k > 0 && k-1 < len(refLog) {
+		at = "after " + refLog[k-1]
+		if k < len(refLog) {
+			at += " before " + refLog[k]
+		}
+	}
+	vf.Assert("api:unanswered-op-survives@"+at, pending[other.ID])
+	vf.Assert("api:retired-implies-sent@"+at, pending[answered.ID] || sent == nmsgs)
+	if k == 0 {
+		vf.Assert("api:answered-stays-retired@"+at, !pending[answered.ID] && sent == nmsgs)
+	}
 	vf.Record("crash", k, effects)
 	vf.Assert("witness", false)
 }
